@@ -321,8 +321,20 @@ func (x *runner) control(st Step) bool {
 
 // Run executes a case on a freshly built stack and returns the trace records.
 func Run(c Case, caseNo int) (res Result) {
-	s := Build(c.Stack)
-	r := newRecorder(s)
+	var s *Stack
+	defer func() {
+		if s == nil { // the stack could not even be built
+			if p := recover(); p != nil {
+				res.Panic = "while building the stack: " + fmt.Sprint(p)
+				res.Records = []map[string]any{{"e": "reset"}}
+			}
+		}
+	}()
+	s = Build(c.Stack)
+	built := s
+	s = nil
+	r := newRecorder(built)
+	s = built
 	x := &runner{s: s, r: r, res: &res}
 	var caching, all []string
 	kinds := map[string]any{}
